@@ -151,7 +151,15 @@ Verdict one_fault(const Ctx & x, const zoo::IStack & proto, const std::string & 
     }
     std::string what;
     Outcome o;
-    if (ft.kind == "read_fail_eof" || ft.kind == "read_fail_throw") {
+    if (ft.kind == "prefix_exc") {
+        // the caller asked the stream to throw on failure: the load must still end in an exception
+        // (whichever of the two sources throws first), never in std::terminate
+        std::string cut = bytes.substr(0, ft.a);
+        std::istringstream is(cut);
+        is.exceptions(std::ios::failbit | std::ios::badbit);
+        o = try_load(*target, is, what);
+        grammatical = false;
+    } else if (ft.kind == "read_fail_eof" || ft.kind == "read_fail_throw") {
         FaultBuf fb(bytes, long(ft.a), ft.kind == "read_fail_throw");
         std::istream is(&fb);
         o = try_load(*target, is, what);
@@ -197,6 +205,12 @@ Verdict run(const Ctx & x, const Case & c, const std::optional<Fault> & only)
             return v;
         }
     }
+    // (1b) truncation on a stream whose exception mask is set by the caller
+    for (size_t n = 0; n < bytes.size(); n += (n < 24 || n + 24 >= bytes.size()) ? 1 : 5) {
+        if (auto v = go(Fault{"prefix_exc", n, 0, ""}, n > 0)) {
+            return v;
+        }
+    }
     // (2) every structural word x replacement values
     for (const reff::Mark & m : p.out.marks) {
         std::vector<uint32_t> repl{0u, ~0u, m.value ^ 1u, m.value ^ 0x80000000u, m.value + 1, m.value - 1, reff::MAGIC_HDR, reff::MAGIC_FTR, m.value + reff::FTR_OFFSET, m.value - reff::FTR_OFFSET, uint32_t(mix(c.data.size(), m.offset))};
@@ -208,6 +222,15 @@ Verdict run(const Ctx & x, const Case & c, const std::optional<Fault> & only)
             }
             for (uint32_t w : {80u, 96u, 128u, 256u, 512u, 0x04000000u, 0x08000000u, 0x00000400u, 0x00000800u, ~0u, 0x80000004u, 0x80000008u}) {
                 repl.push_back(w);
+            }
+        }
+        if (m.what == "tag-header" || m.what == "tag-footer" || m.what == "magic-header" || m.what == "magic-footer") {
+            // every single-bit flip and every value of the low byte: an "alternative" accepted word is likely to be near
+            for (unsigned b = 0; b < 32; ++b) {
+                repl.push_back(m.value ^ (1u << b));
+            }
+            for (uint32_t lo = 0; lo < 256; ++lo) {
+                repl.push_back((m.value & ~0xFFu) | lo);
             }
         }
         if (m.what == "tag-header" || m.what == "tag-footer") {
